@@ -80,7 +80,7 @@ BaseTime(c) == IF c = "same" THEN Last.time ELSE 0
 DosesSoFar(b) == Cardinality({i \in 1..Len(data) : data[i].blk = b /\ data[i].amt > 0})
 
 Rec(c, t, amt, evid, f, dv) ==
-    [id |-> NewId(c), blk |-> NewBlk(c), time |-> t, amt |-> amt, evid |-> evid,
+    [id |-> NewId(c), blk |-> NewBlk(c), time |-> t, amt |-> amt, amtden |-> 1, evid |-> evid,
      mdv |-> IF evid = 0 THEN 0 ELSE 1,
      addl |-> f[1], ii |-> f[2], ss |-> f[3],
      cmt |-> IF "CMT" \in cols THEN (IF amt > 0 THEN f[4] ELSE IF evid = 0 THEN ObsCmt ELSE 0)
@@ -92,9 +92,14 @@ Gen == phase = "gen" /\ Len(data) < MaxLen
 AddRec(r) == /\ data' = data \o <<r>>
              /\ UNCHANGED <<phase, cols, idmode, xdata, ei, k, w, out, xout>>
 Amt == 10 + Len(data)       \* distinct amounts identify the dose records
+\* the amount of a record is the exact rational  amt / amtden  (amtden = 1 or 4).  Fractional amounts 1/4, 2/4, 3/4:
+\* a dose is a record with a POSITIVE amount, also when the amount is below one (doses recorded in g or mmol)
+FracAmt == 1 + (Len(data) % 3)
+FracForms == {<<0, 0, 0, 1>>, <<1, 1, 0, 1>>} \cup (IF Profile >= 2 THEN {<<2, 1, 0, 1>>, <<0, 0, 0, 2>>} ELSE {})
 
 AddObs(c, dt) == Gen /\ AddRec(Rec(c, BaseTime(c) + dt, 0, 0, NoForm, 100 + Len(data)))
 AddDose(c, dt, f) == Gen /\ FormOK(f) /\ AddRec(Rec(c, BaseTime(c) + dt, Amt, 1, f, 0))
+AddSmallDose(c, dt, f) == Gen /\ FormOK(f) /\ AddRec([Rec(c, BaseTime(c) + dt, FracAmt, 1, f, 0) EXCEPT !.amtden = 4])
 AddOther(c, dt) == Gen /\ "EVID" \in cols /\ AddRec(Rec(c, BaseTime(c) + dt, 0, 2, NoForm, 0))
 \* the legal NM-TRAN record of a MISSING observation: EVID = 0 with MDV = 1 (DV present but ignored, or absent = 0).
 \* It needs both columns to be told from an observation; it is NOT an observation (mdv 1, evid 0, no dose).
@@ -109,6 +114,7 @@ ResetForms == {<<0, 0, 0, 1>>, <<1, 1, 0, 1>>, <<0, 0, 0, 2>>}
 
 DoObs == \E c \in IdChoices, dt \in 0..MaxDelta : AddObs(c, dt)
 DoDose == \E c \in IdChoices, dt \in 0..MaxDelta, f \in DoseForms : AddDose(c, dt, f)
+DoSmallDose == \E c \in IdChoices, dt \in 0..MaxDelta, f \in FracForms : AddSmallDose(c, dt, f)
 DoOther == \E c \in IdChoices, dt \in 0..MaxDelta : AddOther(c, dt)
 DoMissing == \E c \in IdChoices, dt \in 0..MaxDelta, withdv \in BOOLEAN : AddMissing(c, dt, withdv)
 DoReset == \E c \in IdChoices : \E t \in ResetTimes(c) : AddReset(c, t)
@@ -121,9 +127,10 @@ SameSlot(S, i, j) == S[j].blk = S[i].blk /\ S[j].time = S[i].time /\ RG(S, j) = 
 DosesInSlot(S, i) == {j \in 1..Len(S) : SameSlot(S, i, j) /\ S[j].amt > 0}
 DosesBefore(S, i) == {j \in DosesInSlot(S, i) : j < i}
 RECURSIVE SumAmt(_)
-SumAmt(S) == IF S = <<>> THEN 0 ELSE Head(S).amt + SumAmt(Tail(S))
+Q(r) == r.amt * (4 \div r.amtden)      \* the amount in quarters
+SumAmt(S) == IF S = <<>> THEN 0 ELSE Q(Head(S)) + SumAmt(Tail(S))
 RECURSIVE SumAll(_)
-SumAll(S) == IF S = <<>> THEN 0 ELSE Head(S).amt * (Head(S).addl + 1) + SumAll(Tail(S))
+SumAll(S) == IF S = <<>> THEN 0 ELSE Q(Head(S)) * (Head(S).addl + 1) + SumAll(Tail(S))
 
 \* ---------------------------------------------------------------- ADDL expansion (own action)
 Tag(S) == [i \in 1..Len(S) |-> [r |-> S[i], src |-> i, j |-> 0, g |-> RG(S, i)]]
@@ -229,7 +236,7 @@ Finish == /\ phase = "xwalk" /\ k > Len(xdata)
 
 Init == /\ phase = "gen" /\ cols \in ColConfigs /\ idmode \in IdModes
         /\ data = <<>> /\ xdata = <<>> /\ ei = 0 /\ k = 0 /\ w = Fresh(0) /\ out = <<>> /\ xout = <<>>
-Next == DoObs \/ DoMissing \/ DoDose \/ DoOther \/ DoReset \/ DoResetDose \/ Close
+Next == DoObs \/ DoMissing \/ DoDose \/ DoSmallDose \/ DoOther \/ DoReset \/ DoResetDose \/ Close
         \/ ExpandOne \/ SkipExpand \/ StartWalk \/ Walk \/ WalkTie \/ StartXWalk
         \/ XWalk \/ XWalkTie \/ Finish
 Spec == Init /\ [][Next]_vars
@@ -298,7 +305,7 @@ RECURSIVE Hash(_, _)
 Hash(S, h) == IF S = <<>> THEN h
               ELSE LET r == Head(S) IN
                    Hash(Tail(S), (h * 37 + r.id + 3 * r.time + 7 * r.evid + 11 * r.addl + 13 * r.ii
-                                  + 17 * r.ss + 19 * r.cmt + 23 * r.amt + 29 * r.mdv + (r.dv % 2)) % 1000003)
+                                  + 17 * r.ss + 19 * r.cmt + 23 * r.amt + 5 * r.amtden + 29 * r.mdv + (r.dv % 2)) % 1000003)
 Selected == Hash(data, Cardinality(cols) + (IF idmode = "asc" THEN 0 ELSE 5)) % EmitMod = EmitSel
 SetToSeq(T) == LET RECURSIVE L(_)
                    L(U) == IF U = {} THEN <<>> ELSE LET x == CHOOSE y \in U : \A z \in U : y <= z IN <<x>> \o L(U \ {x})
@@ -310,11 +317,11 @@ Case ==
     [cols |-> cols, idmode |-> idmode, contiguous |-> Contiguous,
      data |-> data, out |-> out,
      tad |-> TadCol, tfree |-> TadFree, tnd |-> TadNd, atad |-> TadAlt, atfree |-> TadAltFree,
-     xdata |-> [i \in 1..Len(xdata) |-> [id |-> xdata[i].r.id, time |-> xdata[i].r.time, amt |-> xdata[i].r.amt,
+     xdata |-> [i \in 1..Len(xdata) |-> [id |-> xdata[i].r.id, time |-> xdata[i].r.time, amt |-> xdata[i].r.amt, amtden |-> xdata[i].r.amtden,
                                          src |-> xdata[i].src, x |-> xdata[i].j > 0, g |-> xdata[i].g]],
-     total |-> SumAmt(XS),
+     total4 |-> SumAmt(XS),        \* total administered amount, in quarters
      obs |-> SelectSeq([i \in 1..Len(data) |-> [id |-> data[i].id, time |-> data[i].time, dv |-> data[i].dv, o |-> out[i].isobs]], LAMBDA e : e.o),
-     doses |-> SelectSeq([i \in 1..Len(data) |-> [id |-> data[i].id, time |-> data[i].time, amt |-> data[i].amt]], LAMBDA e : e.amt > 0),
+     doses |-> SelectSeq([i \in 1..Len(data) |-> [id |-> data[i].id, time |-> data[i].time, amt |-> data[i].amt, amtden |-> data[i].amtden]], LAMBDA e : e.amt > 0),
      nobs |-> [i \in 1..Cardinality(Ids) |-> <<SetToSeq(Ids)[i], NObs(SetToSeq(Ids)[i])>>],
      base |-> [i \in 1..Cardinality(Ids) |-> <<SetToSeq(Ids)[i], FirstIdx(SetToSeq(Ids)[i])>>],
      tv |-> {c \in {"WGT", "APGR"} : \E id \in Ids : IF c = "WGT" THEN Varies(id, LAMBDA r : r.wgt) ELSE Varies(id, LAMBDA r : r.apgr)},
